@@ -162,14 +162,16 @@ def modelV (v : Value String) : String × String :=
     | none => "ERR")
 
 /-- verdict on the *implementation's* observation of a `V` case (the property itself):
-refused ⇒ the value must contain an opaque variant (`C20_refusal_iff`: that is when the model refuses);
+refused ⇒ the value must contain an opaque variant (`C20_refusal_iff`: that is when the model refuses) or an `ErrorV`;
 otherwise what came back must print exactly like what went in. -/
 def judgeV (v : Value String) (implSer implBack : String) : String :=
   if implSer == "PANIC" || implBack == "PANIC" then "PROPFAIL:panic"
   else if implSer.startsWith "ERR:" then
     match toFfi id v with
     | .error _ => "ok-refused"
-    | .ok _ => "PROPFAIL:refused-representable"
+    | .ok _ =>
+      -- `ErrorV` has no faithful representation either (its expression id is dropped): refusing it is allowed
+      if showValue symStr v != showValue symStr v.eraseErrors then "ok-refused" else "PROPFAIL:refused-representable"
   else
     match toFfi id v with
     | .error _ => "PROPFAIL:opaque-not-refused"
@@ -190,7 +192,9 @@ def judgeM (as : List (Value String × Key)) (implSer implBack : String) : Strin
   else if implSer.startsWith "ERR:" then
     match toFfiArgs id as with
     | .error _ => "ok-refused"
-    | .ok _ => "PROPFAIL:refused-representable"
+    | .ok _ =>
+      if showArgs as != showArgs (as.map (fun (v, k) => (v.eraseErrors, k))) then "ok-refused"
+      else "PROPFAIL:refused-representable"
   else
     match toFfiArgs id as with
     | .error _ => "PROPFAIL:opaque-not-refused"
